@@ -68,7 +68,7 @@ impl Property for C20 {
     const ID: &'static str = "C20";
 
     fn rule() -> String {
-        "Four modes; keys of the right size; CTR IVs whose low 64 bits are 0, 0xff, 0xffff, ... and the largest values that do not wrap within the message (carries between counter bytes); message lengths 0..80 (every residue mod 16) and up to 20 KiB; CBC ciphertexts truncated to every kind of invalid length and ciphertexts whose last block decrypts to invalid PKCS#7 padding (built with the reference cipher). Oracle: FIPS-197 AES with CBC/PKCS#7 and big-endian-counter CTR written from the standards (refimpl::aes, validated against FIPS-197 / SP 800-38A vectors and openssl). Non-trivial = message >= 16 bytes or a multiple of 16, a counter carry, or a rejection case; distinct by hash of the serialised case.".into()
+        "Four modes; keys of the right size; CTR IVs whose low 64 bits are 0, 0xff, 0xffff, ... and the largest values that do not wrap within the message (carries between counter bytes); message lengths 0..80 (every residue mod 16) and up to 20 KiB; CBC ciphertexts truncated to every kind of invalid length and ciphertexts whose last block decrypts to invalid PKCS#7 padding (a final byte of 0 or above 16, a damaged run, a run of p bytes of value p for every p from 17 to 255; built with the reference cipher). Oracle: FIPS-197 AES with CBC/PKCS#7 and big-endian-counter CTR written from the standards (refimpl::aes, validated against FIPS-197 / SP 800-38A vectors and openssl). Non-trivial = message >= 16 bytes or a multiple of 16, a counter carry, or a rejection case; distinct by hash of the serialised case.".into()
     }
 
     fn assumptions() -> Vec<String> {
@@ -90,6 +90,17 @@ impl Property for C20 {
                 idx += 1;
                 if idx % nshards == shard && !f(Case::Enc { mode, key: Bytes::Fill { len: 32, seed: mode }, iv: Iv { hi: 0x0102030405060708, lo: Lo::MaxMinus((len % 3) as u8) }, msg: Bytes::Fill { len, seed: 5 } }) {
                     return;
+                }
+            }
+        }
+        // every final plaintext byte 0..=255 as a full run (kind 2 for 17..=255), as a lone wrong count (kind 0) and as a damaged run (kind 1)
+        for mode in 0..2u8 {
+            for last in 0..=255u8 {
+                for kind in 0..3u8 {
+                    idx += 1;
+                    if idx % nshards == shard && !f(Case::CbcBadPad { mode, key: Bytes::Fill { len: 32, seed: 3 }, iv: Iv { hi: 7, lo: Lo::Val(9) }, blocks: 2, last, kind }) {
+                        return;
+                    }
                 }
             }
         }
@@ -123,7 +134,7 @@ impl Property for C20 {
         prop_oneof![
             12 => (0u8..4, key(), iv(), msg()).prop_map(|(mode, key, iv, msg)| Case::Enc { mode, key, iv, msg }),
             3 => (0u8..2, key(), iv(), msg(), any::<u16>()).prop_map(|(mode, key, iv, msg, cut)| Case::CbcTrunc { mode, key, iv, msg, cut }),
-            3 => (0u8..2, key(), iv(), 1u8..5, any::<u8>(), 0u8..2).prop_map(|(mode, key, iv, blocks, last, kind)| Case::CbcBadPad { mode, key, iv, blocks, last, kind }),
+            3 => (0u8..2, key(), iv(), 1u8..5, any::<u8>(), 0u8..3).prop_map(|(mode, key, iv, blocks, last, kind)| Case::CbcBadPad { mode, key, iv, blocks, last, kind }),
         ]
         .boxed()
     }
@@ -175,9 +186,15 @@ impl Property for C20 {
             Case::CbcBadPad { mode, key, iv, blocks, last, kind } => {
                 let k = key_bytes(*mode, key);
                 let ivb = iv.bytes(0);
-                let n = (*blocks as usize).max(1) * 16;
+                // kind 2: a run of p bytes of value p with 17 <= p <= 255: longer than a block, so not a padding
+                let long_run = (*last as usize).max(17);
+                let n = if kind % 3 == 2 { ((*blocks as usize).max(1) * 16).max((long_run + 15) / 16 * 16) } else { (*blocks as usize).max(1) * 16 };
                 let mut plain: Vec<u8> = (0..n).map(|i| (i as u8).wrapping_mul(13).wrapping_add(1)).collect();
-                if kind % 2 == 0 {
+                if kind % 3 == 2 {
+                    for b in plain[n - long_run..].iter_mut() {
+                        *b = long_run as u8;
+                    }
+                } else if kind % 2 == 0 {
                     // final byte is not a valid count
                     let bad = if *last == 0 || *last > 16 { *last } else { last.wrapping_add(16) };
                     plain[n - 1] = bad;
